@@ -7,6 +7,8 @@ Tie:      `model` — programs of the modelled fragment: the real `._meta` (kind
           C46 (cumulative / shift / rolling) generators plus groupby: the computed object's type, column names and order,
           dtypes, index name and index dtype, Series name are compared with `._meta`, for the whole result and for EVERY
           partition computed separately. dtypes are an oracle check only (pandas type inference is not modelled).
+          `labels` / `ltable` (last extension round, harness/props/_c42x_labels.py): Series name, index name, index dtype —
+          Model/MetaLabels.lean, Props/C42xLabels.lean.
 """
 from __future__ import annotations
 
@@ -31,14 +33,26 @@ LEVEL_TEXT = (
     "arithmetic, comparison and boolean subset, composed from the result-dtype table binDType/notDType) refines it. The "
     "dtype TABLE is pandas' behaviour: it is checked against pandas every run on EMPTY and on non-empty operands (value "
     "independence is what makes meta-on-empty-frames right), dtypeOf against the real ._meta dtypes of logical and optimised "
-    "expressions. All other dtypes (str, datetime, categorical, nullable), index name/dtype and Series names are NOT theorems: "
-    "oracle checks on random pipelines from the C36/C37/C43/C46 generators and groupby, for the whole result and each "
-    "partition separately (exploration strength for that part).")
+    "expressions. Last extension round (Props/C42xLabels.lean, Model/MetaLabels.lean): SERIES NAME, INDEX NAME and INDEX DTYPE of "
+    "the same relational fragment — labels_commute (the lazy labels metaL = kind, columns, Series name, index name, index dtype "
+    "equal the labels of the object computed by denL, the value semantics with pandas' labels attached), labels_of_partitions, "
+    "denL_refines_den / metaL_refines_metaOf (the labelled semantics is the C43 value semantics, never fails more often), "
+    "index_labels_are_source, computed_labels_eq_meta (the full C42 statement for the fragment, labels included), "
+    "optimizer_keeps_frame_labels (accepted optimizer steps keep every label of a DataFrame result; that they keep a SERIES NAME "
+    "is validated only). metaL is diffed against the real ._meta of logical and optimised expressions, denL against the really "
+    "computed whole result and every partition (index named / unnamed / named like a column; int64, float64, datetime64, str "
+    "index), the per-operation label rules against pandas on empty and non-empty operands. All other dtypes (str, datetime, "
+    "categorical, nullable) and the labels of expressions OUTSIDE the fragment (reductions, groupby, cumulative/rolling, "
+    "accessors, Index objects) are NOT theorems: oracle checks on random pipelines from the C36/C37/C43/C46 generators and "
+    "groupby, for the whole result and each partition separately (exploration strength for that part).")
 LEVEL_NOTE = ("Trusted: Lean kernel; translator from dask expressions to the model AST; pandas as the dtype oracle. The dtype part of "
               "the statement is validated, not proved.")
 TECHNIQUE = "Lean 4 proof of schema commutation for a relational fragment + oracle comparison of ._meta with computed results and partitions"
 ASSUMPTIONS = ["meta of an expression = pandas applied to an empty/fake frame (dask's design); kind/columns and the dtypes of the int64/float64/bool arithmetic subset are modelled",
-               "pandas' result dtype of the table's operators does not depend on the values (validated every run: empty vs non-empty operands)"]
+               "pandas' result dtype of the table's operators does not depend on the values (validated every run: empty vs non-empty operands)",
+               "pandas' label rules of the fragment's operations (name of a binary result = _maybe_match_name, unary/scalar/filter keep the "
+               "operand's name, df[c] is named c, results carry the index labels of the frame / left operand) do not depend on the values "
+               "(validated every run: section ltable, empty vs non-empty operands)"]
 
 def describe(obj):
     """schema of a pandas object / scalar as JSON"""
